@@ -272,7 +272,7 @@ void Executor::op_param(const Op& op, Obj& o) {
   bool any = op.geti("any", 0) != 0;   // any parameter (run without later solves) or only the ones that are safe to vary before a solve
   static const char* safeB[] = {"ensureray", "fullperturbation", "rowboundflips", "persistentscaling", "acceptcycling", "powerscaling", "ratfacjump", "forcebasic", "testdualinf", "eqtrans"};
   static const char* safeI[] = {"representation", "algorithm", "factor_update_type", "factor_update_max", "displayfreq", "simplifier", "scaler", "starter", "pricer", "ratiotester", "hyperpricing", "solution_polishing", "ratfac_minstalls", "leastsq_maxrounds", "printbasismetric", "stattimer", "timer"};
-  static const char* safeR[] = {"maxscaleincr", "sparsity_threshold", "representation_switch", "ratrec_freq", "minred", "refac_basis_nnz", "refac_update_fill", "refac_mem_factor", "leastsq_acrcy", "min_markowitz", "simplifier_modifyrowfac", "precision_boosting_factor", "liftminval", "liftmaxval"};
+  static const char* safeR[] = {"maxscaleincr", "sparsity_threshold", "representation_switch", "ratrec_freq", "minred", "refac_basis_nnz", "refac_update_fill", "refac_mem_factor", "leastsq_acrcy", "min_markowitz", "precision_boosting_factor", "liftminval", "liftmaxval"};
   auto snapshot = [&](std::vector<bool>& b, std::vector<int>& i, std::vector<double>& d) { b.clear(); i.clear(); d.clear(); for (int p = 0; p < pi.nbool; p++) b.push_back(s.getBool(p)); for (int p = 0; p < pi.nint; p++) i.push_back(s.getInt(p)); for (int p = 0; p < pi.nreal; p++) d.push_back(s.getReal(p)); };
   auto same = [&](const std::vector<bool>& b, const std::vector<int>& i, const std::vector<double>& d) { for (int p = 0; p < pi.nbool; p++) if (b[p] != s.getBool(p)) return "bool:" + pi.bname[p]; for (int p = 0; p < pi.nint; p++) if (i[p] != s.getInt(p)) return "int:" + pi.iname[p]; for (int p = 0; p < pi.nreal; p++) if (memcmp(&d[p], &(const double&)s.getReal(p), 8) && !(std::isnan(d[p]) && std::isnan(s.getReal(p)))) return "real:" + pi.rname[p]; return std::string(); };
   count("param:" + kind);
@@ -311,7 +311,7 @@ void Executor::op_param(const Op& op, Obj& o) {
     std::vector<bool> b0; std::vector<int> i0; std::vector<double> d0; snapshot(b0, i0, d0);
     if (ty == 0) {
       int p = any ? (int)r.below(pi.nbool) : P::b(safeB[r.below(sizeof safeB / sizeof safeB[0])]);
-      if (pi.bname[p] == "lifting") p = P::b("ensureray");
+      if (pi.bname[p] == "lifting" || pi.bname[p].compare(0, 18, "simplifier_enable_") == 0) p = P::b("ensureray");   // the simplifier_enable_* switches belong to PaPILO, which is not compiled in: they are rejected by design
       bool v = r.chance(0.5); name = "bool:" + pi.bname[p];
       if (bad && !viaString) { count("param_skipped"); return; }   // every bool value is valid through the typed setter
       sval = bad ? r.pick({std::string("2"), std::string("yes"), std::string("maybe"), std::string("-1")}) : std::string(v ? (r.chance(0.5) ? "true" : "1") : (r.chance(0.5) ? "false" : "0"));
@@ -329,7 +329,7 @@ void Executor::op_param(const Op& op, Obj& o) {
       if (ok && expect) { o.pm.i[p] = (int)v; if (pi.iname[p] == "objsense") o.lp.sense = (int)v; if (pi.iname[p] == "syncmode" && v != 0) o.ever_rational = true; o.refReal.valid = o.refRat.valid = false; }
     } else {
       int p = any ? (int)r.below(pi.nreal) : P::r(safeR[r.below(sizeof safeR / sizeof safeR[0])]);
-      if (pi.rname[p] == "infty") p = P::r("minred");   // INFTY rescales the meaning of stored bounds: handled by its own scenario, not here
+      if (pi.rname[p] == "infty" || pi.rname[p] == "simplifier_modifyrowfac") p = P::r("minred");   // simplifier_modifyrowfac belongs to PaPILO (not compiled in)   // INFTY rescales the meaning of stored bounds: handled by its own scenario, not here
       double lo = pi.rlo[p], up = pi.rup[p], v;
       if (!bad) { v = r.pick({lo, up, pi.rdef[p], lo + (up - lo) * r.unit() * (up - lo > 1e50 ? 1e-90 : 1.0)}); if (!(v >= lo && v <= up)) v = pi.rdef[p]; }
       else { v = r.pick({(double)(lo - 1.0), (double)(up * 2 + 1.0), (double)-INFINITY, (double)INFINITY, (double)NAN, (double)(lo - 1e-9 - fabs(lo) * 1e-9)}); if (v >= lo && v <= up) v = std::nextafter(lo, -INFINITY); if (v >= lo && v <= up) { count("param_skipped"); return; } }
@@ -338,6 +338,7 @@ void Executor::op_param(const Op& op, Obj& o) {
       if (viaString) ok = s.parseSettings(name + "=" + sval); else ok = s.setReal(p, v);
       if (ok && expect) { o.pm.r[p] = viaString ? atof(sval.c_str()) : v; if (pi.rname[p] == "obj_offset") o.lp.offset = model::q_from_double(o.pm.r[p]); }
     }
+    if (opt_.verbose) fprintf(stderr, "[param] %s %s=%s ok=%d\n", kind.c_str(), name.c_str(), sval.c_str(), (int)ok);
     std::map<std::string, std::string> ctx = {{"param", name}, {"value", sval}, {"via", viaString ? "string" : "setter"}};
     if (expect && !ok) { viol("C15", "valid_value_rejected", name + "=" + sval + " rejected", ctx); }
     if (!expect && ok) { viol("C15", "invalid_value_accepted", name + "=" + sval + " accepted (returned true)", ctx); for (int p = 0; p < pi.nbool; p++) o.pm.b[p] = s.getBool(p); for (int p = 0; p < pi.nint; p++) o.pm.i[p] = s.getInt(p); for (int p = 0; p < pi.nreal; p++) o.pm.r[p] = s.getReal(p); }
